@@ -60,7 +60,7 @@ def main():
         t_start = time.time()
         for p in patches:
             name = p[:-6]
-            if only and name != only:
+            if only and name not in only.split(","):
                 continue
             if not only and time.time() - t_start > budget:
                 rows.append((name, "skipped (time budget %ds used)" % budget, [], expect.get(name, [])))
